@@ -65,12 +65,39 @@ def has_duplicate_poses(arr):
 
 
 def build(arr, rng, stamped=True):
+    """
+    Build the object under test - with a *history*: before the operation that is judged, the
+    object may have had derived quantities read (which primes whatever caches exist), been
+    split (non-mutating) or been reduced to a known index subset (then `arr` is reduced in
+    place as well, so it always describes the object's current content).
+    """
     mode = "se3" if rng.random() < .5 else "xyzq"
     assert stamped or not has_duplicate_poses(arr)
     fl = gen.rand_flavour(rng)
     tr = gen.make_evo(arr, mode, stamped, flavour=fl)
     if rng.random() < .3:
         tr.poses_se3, tr.positions_xyz, tr.orientations_quat_wxyz
+    n = len(arr["p"])
+
+    def touch():
+        tr.distances, tr.path_length, tr.get_infos(), tr.check()
+        if stamped and tr.num_poses >= 2:
+            tr.speeds, tr.get_statistics()
+        if rng.random() < .5 and tr.num_poses >= 2:
+            tr.split_distance_gaps(float(rng.random() * 3))
+            if stamped:
+                tr.split_time_gaps(float(rng.random() * 3))
+
+    if rng.random() < .4:
+        touch()
+    if rng.random() < .3 and n >= 3:
+        ids = sorted(rng.choice(n, size=int(rng.integers(2, n + 1)), replace=False).tolist())
+        tr.reduce_to_ids(ids if rng.random() < .5 else np.array(ids))
+        for k in ("p", "R", "t"):
+            arr[k] = arr[k][ids]
+        arr["exact"] = False  # steps between non-adjacent grid points are no longer integers
+        if rng.random() < .5:
+            touch()
     exp = gen.read_views(gen.make_evo(arr, mode, stamped, flavour=fl))
     return tr, exp, mode
 
@@ -131,6 +158,7 @@ def k_downsample(run, case):
     arr = make_traj(rng, n, exact=False)
     stamped = bool(rng.random() < .7) or has_duplicate_poses(arr)
     tr, exp, mode = build(arr, rng, stamped)
+    n = len(arr["p"])
     out = contracts.outcome_of(tr.downsample, N)
     run.seen(case, core.digest(arr["p"], arr["t"], "ds", N, stamped), nontrivial=N < n,
              cls=["downsample", "N<1" if N < 1 else "N>=count" if N >= n else "1<=N<count"],
@@ -189,6 +217,8 @@ def k_motion(run, case):
         a_thr = 0.0 if rng.random() < .1 else (rng.uniform(0, 200) if degrees else rng.uniform(0, 3.5))
     stamped = bool(rng.random() < .7) or has_duplicate_poses(arr)
     tr, exp, mode = build(arr, rng, stamped)
+    n = len(arr["p"])
+    exact = exact and arr.get("exact", False)
     via = "method" if rng.random() < .7 else "function"
     if via == "method":
         out = contracts.outcome_of(tr.motion_filter, d_thr, a_thr, degrees)
@@ -260,6 +290,7 @@ def k_crop(run, case):
     n = int(rng.integers(1, {"quick": 150, "thorough": 5000}[run.tier]))
     arr = make_traj(rng, n, exact=bool(rng.random() < .3))
     tr, exp, mode = build(arr, rng, True)
+    n = len(arr["p"])
     t = arr["t"]
 
     def pick():
@@ -316,6 +347,8 @@ def k_split(run, case):
         which = "distance"
     stamped = which != "distance_path"
     tr, exp, mode = build(arr, rng, stamped)
+    n = len(arr["p"])
+    exact = exact and arr.get("exact", False)
     seg = np.linalg.norm(np.diff(arr["p"], axis=0), axis=1) if n > 1 else np.zeros(0)
     dts = np.diff(arr["t"]) if n > 1 else np.zeros(0)
     if which == "time":
